@@ -169,9 +169,10 @@ Definition plain (t : text) : bool :=
 
 Definition labels_of (o : ostate) (b : N) : list text := match find_g o b with Some g => sn_labels (g_snap g) | None => [] end.
 
-(* a request that must succeed: known user, well-formed, unique target, plain texts, an effective label change *)
+(* a request that must succeed: known user, well-formed, every attached file stored, unique target, plain texts, an
+   effective label change *)
 Definition plainly_valid (c : case) (pre : ostate) (m : mutk) (a : args) (u : N) : bool :=
-  memN u idents &&
+  memN u idents && a_files_ok a &&
   match resolve_m (c_keeps c) (idtext_of (c_ids c)) m (state_of pre) a with
   | Ok tgt =>
       match m with
